@@ -37,6 +37,15 @@ def gen_func(rng, with_spaces):
         lines.append(f"    %l0 = memref.alloc() : {base}")
         vals.append(("%l0", base))
     if with_spaces and rng.random() < 0.3:
+        # a window of a larger buffer, also with a non-unit step
+        o0, o1, s0, s1 = rng.choice([0, 1]), rng.choice([0, 2]), rng.choice([1, 2]), rng.choice([1, 1, 2])
+        if o1 + 3 * s1 > 7:
+            o1 = 0
+        svt = f"memref<4x4xi8, strided<[{8 * s0}, {s1}], offset: {o0 * 8 + o1}>>"
+        lines.append("    %w = memref.alloc() : memref<8x8xi8>")
+        lines.append(f"    %sv = memref.subview %w[{o0}, {o1}] [4, 4] [{s0}, {s1}] : memref<8x8xi8> to {svt}")
+        vals.append(("%sv", svt))
+    if with_spaces and rng.random() < 0.3:
         # a constant buffer (no memory space assigned by anything): only ever read
         rows = ", ".join("[" + ", ".join(str(r * 4 + c) for c in range(4)) + "]" for r in range(4))
         lines.append(f"    %cst = arith.constant dense<[{rows}]> : {base}")
@@ -180,6 +189,7 @@ def run(pid: str, tier: str, seed: int, selftest=False, replay=None) -> int:
     for k in range(40 if quick else 400):
         jobs.append((f"cleared:{seed}:{k}", gen_func(rng, True), "pipe:set-memory-space,realize-memref-casts,clear-memory-space", None))
     prev_text = None
+    svcases = []
     for ji, (name, text, with_spaces, wargdom) in enumerate(jobs):
         own = text
         if name.startswith("gen:") and ji % 3 == 0 and prev_text is not None and with_spaces == prev_ws:
@@ -206,6 +216,24 @@ def run(pid: str, tier: str, seed: int, selftest=False, replay=None) -> int:
             rep.violation(name, "casts that still have users remain after realize-memref-casts", {"source": text, "after": str(m)[:3000]})
             continue
         fa, fb = funcs_of(src)["f"], funcs_of(m)["f"]
+        # the type of every subview must describe what its operands select from its source
+        from xdsl.dialects.builtin import NoneAttr as _None, StridedLayoutAttr as _SL
+        for sv in [o for o in fb.walk() if isinstance(o, memref.SubviewOp)]:
+            st, rt = sv.source.type, sv.result.type
+            if not isinstance(rt.layout, _SL) or DYNI in sv.static_offsets.get_values() or DYNI in sv.static_strides.get_values():
+                continue
+            if isinstance(st.layout, _None):
+                shp = st.get_shape()
+                sstr = [int(np.prod(shp[d + 1:])) for d in range(len(shp))]
+                soff = 0
+            elif isinstance(st.layout, _SL) and all(hasattr(x, "data") for x in st.layout.strides.data):
+                sstr, soff = [x.data for x in st.layout.strides.data], (st.layout.offset.data if hasattr(st.layout.offset, "data") else -1)
+            else:
+                continue
+            rstr = [x.data if hasattr(x, "data") else -1 for x in rt.layout.strides.data]
+            roff = rt.layout.offset.data if hasattr(rt.layout.offset, "data") else -1
+            svcases.append({"kind": "subviewtype", "name": name + "|subview", "sstr": sstr, "soff": soff, "offs": list(sv.static_offsets.get_values()),
+                            "steps": list(sv.static_strides.get_values()), "rstr": rstr, "roff": roff, "text": text, "after": str(fb)[:3000]})
         ia, ib = image_of(fa), image_of(fb)
         for im in (ia, ib):
             im["allocsite"], im["track"] = 1, 1
@@ -247,6 +275,15 @@ def run(pid: str, tier: str, seed: int, selftest=False, replay=None) -> int:
                 oi, verdict, _, _ = sorted(bad)[0]
                 rep.violation(c["name"], f"{c['pipe']}: clause {verdict} fails for n = {oracle_at(c, oi)['args'][3:]} ({len(bad)}/{len(vs)} oracles)",
                               {"source": c["text"], "after": c["after"], "clause": verdict})
+    if svcases:
+        r, verdicts = run_obj_batch(pid, svcases, tag="subviewtypes")
+        rep.add_tlc(r)
+        for tid, v in verdicts.items():
+            c = svcases[tid - 1]
+            rep.evaluations += 1
+            if v != "ok":
+                rep.violation(c["name"], f"clause {v} fails: a subview with offsets {c['offs']} steps {c['steps']} of a source with strides {c['sstr']} "
+                              f"is typed strided<{c['rstr']}, offset: {c['roff']}>", {"source": c["text"], "after": c["after"], "clause": v})
     # ---- constants / globals
     rcases = []
     dense_layouts = []
